@@ -332,7 +332,7 @@ def run(chk):
     from .c12 import cluster_cases
     chk.map(lambda t: regression_case(chk, t), regression_cases(), budget_s=600)
     # (the odd-field clusters are C12's: unions with flexible members and --flexarray-dst need nightly features and are outside the compile oracle)
-    chk.map(lambda kc: cluster_case(chk, kc[0], kc[1]), [kc for kc in enumerate(cluster_cases()) if not kc[1][0].startswith(("odd-", "annotated-"))]      # (incl. annotated-replaces), budget_s=600)
+    chk.map(lambda kc: cluster_case(chk, kc[0], kc[1]), [kc for kc in enumerate(cluster_cases()) if not kc[1][0].startswith(("odd-", "annotated-"))], budget_s=600)      # (incl. annotated-replaces)
     chk.map(lambda i: gen_case(chk, i), range(chk.pick(450, 6000)), budget_s=chk.pick(500, 3000))
     return chk.finish(
         rule="case = (header, option set, edition): headers from the families {generated C type graphs, function/variable libraries, "
